@@ -298,6 +298,8 @@ def run_histories(chk, stats):
     pop = [{'label': 'A', 'kind': 'plain'}]
     cases = [
         ('on all print 1', ''), ('on all print 1', '# all commented out'), ('hue 5 set all', '\n  \n'),
+        ('units raw hue 1000 assign x 5 define z 42', ''), ('units rgb red 50 duration 7 time 3 assign y "s"', '# c'),
+        ('units raw hue 1000 assign x 5', 'print'), ('hue 77 assign x 5', 'define k 3'),
         ('repeat 2 begin on all', '# nothing'), ('on all print 1', 'wait'),
         ('assign z 0 printf "{} {}" 1 {1 / z}', 'printf "{}" 7 println 8'),
         ('print 1 print 2', 'print 3 println 4'),
@@ -334,6 +336,32 @@ def run_histories(chk, stats):
                           'a job re-loaded with {!r} after running {!r} gives {} instead of {}'.format(
                               second_text, first_text, got_r[:5], want_b[:5]),
                           {'first': first_text, 'second': second_text})
+        # … and what the job reports of its machine afterwards (ScriptJob.get_machine_state():
+        # registers, unit mode, variables) is what a new job reports after the same text
+        if machine_state(reused) != machine_state(fresh):
+            a, b = machine_state(reused), machine_state(fresh)
+            key = next(k for k in a if a[k] != b.get(k))
+            chk.violation('machine-state-carries-over:reloaded-job',
+                          'after running {!r} and then {!r} the job reports {} = {!r}; a new job running the '
+                          'second text reports {!r}'.format(first_text, second_text, key, a[key], b.get(key)),
+                          {'first': first_text, 'second': second_text})
+
+
+def machine_state(job):
+    """registers (unit mode among them) and global variables as the job reports them"""
+    st = job.get_machine_state()
+    out = {}
+    for k, v in sorted(vars(st.reg).items()):
+        out['register ' + k.lstrip('_')] = repr(v)
+    root = st.call_stack.get_top()
+    while getattr(root, 'parent', None) is not None:
+        root = root.parent
+    for attr in ('vars', 'globals'):
+        table = getattr(root, attr, None)
+        if isinstance(table, dict):
+            for k, v in sorted(table.items()):
+                out['variable ' + str(k)] = repr(v)
+    return out
 
 
 def stdout_carry_over(chk, stats):
